@@ -47,6 +47,8 @@ fn main() {
             "mailmap" => replay_one(&suites::identity::mailmap_suite(), &v["input"], &mut model),
             "keepcommit" => replay_one(&suites::commit::Keep, &v["input"], &mut model),
             "freshness" => replay_one(&suites::sanity::Fresh, &v["input"], &mut model),
+            "topn" => replay_one(&suites::analyze::topn_suite(), &v["input"], &mut model),
+            "normdetect" => replay_one(&suites::analyze::normalize_suite(), &v["input"], &mut model),
             "unpushed" => replay_one(&suites::sanity::Unpushed, &v["input"], &mut model),
             "finalizeparents" => replay_one(&suites::commit::Parents, &v["input"], &mut model),
             _ => json!({"error": "unknown suite"}),
@@ -72,6 +74,8 @@ fn main() {
             "authors" => suites::identity::run_authors(&tier, seed, &mut model),
             "mailmap" => vec![suites::identity::run_mailmap(&tier, seed, &mut model)],
             "sanity" => suites::sanity::run(&tier, seed, &mut model),
+            "analyze" => suites::analyze::run_analyze(&tier, seed, &mut model),
+            "detect" => suites::analyze::run_detect(&tier, seed, &mut model),
             "commit" => vec![suites::commit::run_keep(&tier, seed, &mut model), suites::commit::run_parents(&tier, seed, &mut model), suites::commit::run_misc(&tier, seed, &mut model)],
             other => {
                 eprintln!("unknown suite {other}");
